@@ -65,7 +65,7 @@ var (
 	reHeaderTC      = regexp.MustCompile(`^type-contract\s+(\S+)\s*\(([^)]*)\)\s*(?:\(([^)]*)\))?\s*$`)
 	reHeaderExtern  = regexp.MustCompile(`^extern\s+(\(\*?[\w./]+\)\.\w+|[\w./]+)\s*\(([^)]*)\)\s*(?:\(([^)]*)\))?\s*$`)
 	reHeaderModel   = regexp.MustCompile(`^(?:model|pred)\s+(\w+)\s*\(([^)]*)\)\s*:=\s*(.*)$`)
-	reClause        = regexp.MustCompile(`^(requires|ensures|modifies|ghost|refines|co|captured-inv|assume-obligation|invariant|panics-only-if|assume|decreases|loop|trusted|abstracted|reveal|props|havoc)\b(?:\[([^\]]+)\])?\s*(.*)$`)
+	reClause        = regexp.MustCompile(`^(requires|ensures|cover|modifies|ghost|refines|co|captured-inv|assume-obligation|invariant|panics-only-if|assume|decreases|loop|trusted|abstracted|reveal|props|havoc)\b(?:\[([^\]]+)\])?\s*(.*)$`)
 	reLoop          = regexp.MustCompile(`^#(\d+)\s+(invariant|havoc)\b(?:\[([^\]]+)\])?\s*(.*)$`)
 )
 
